@@ -110,6 +110,18 @@ def settle(timeout=0.5):
     while _EXECUTORS:
         ex = _EXECUTORS.pop()
         if id(ex) in owned:
+            # a kept client's own executor is not shut down, but transfers a FAILED command left running on it (a synchronous backend
+            # call cannot be cancelled) must have ended before the harness looks at the store: wait until every worker thread is idle
+            loop = R.PERSISTENT_LOOP
+            deadline = time.monotonic() + 10 * timeout
+            while time.monotonic() < deadline:
+                q, thr, sem = getattr(ex, '_work_queue', None), list(getattr(ex, '_threads', ())), getattr(ex, '_idle_semaphore', None)
+                if (q is None or q.empty()) and (sem is None or sem._value >= len(thr)):
+                    break
+                if loop is not None and not loop.is_closed() and not loop.is_running():
+                    loop.run_until_complete(asyncio.sleep(0.001))
+                else:
+                    time.sleep(0.002)
             rest.append(ex)
             continue
         ex.shutdown(wait=False, cancel_futures=True)
